@@ -5,12 +5,10 @@ implementations) against symbolchain.Network / symbol.Network / nem.Network; dir
 implementation against an independent statement written here: hashlib SHA3-256 / RIPEMD-160, a self-contained Keccak-256, and base32
 as a bit string cut into 5-bit digits (no use of the base64 module).
 """
-import ast
 import datetime
 import hashlib
 import json
 import os
-import re
 
 from .c16 import spec_keccak
 from .common import hx, sx
@@ -20,7 +18,7 @@ RULE = (
 	'strings) x {Symbol, NEM} x {mainnet 0x68, testnet 0x98, vector identifiers 0x78/0xA8/0x60, random and boundary custom identifiers '
 	'incl. 0, 255 and the refused 256+}; for every derived address: bytes, text, parse, validity on its own network and on other '
 	'identifiers; a string stream built from valid texts by one edit each (character outside the alphabet, lower case, wrong length, '
-	'padding character, other network kind, wrong identifier, each checksum byte perturbed, each hash byte region perturbed, Symbol '
+	'padding character, white space / line ends before, after and instead of the last character, other network kind, wrong identifier, each checksum byte perturbed, each hash byte region perturbed, Symbol '
 	'last-character aliases) plus random alphabet / non-alphabet strings; an address-bytes stream (derived, every checksum byte perturbed, '
 	'identifier perturbed, random 24/25-byte arrays, odd lengths through a stub). A case is distinct by its (operation, arguments).')
 TRUSTED_BASE = [
@@ -51,106 +49,201 @@ VECTOR_TAGS = {
 EPOCH = datetime.datetime(2020, 1, 1, tzinfo=datetime.timezone.utc)
 
 # region translator
+#
+# Every constant written to Generated/C08Consts.lean is read off the *running* code of the working tree, never off the spelling
+# of its source: public names through translate/pyruntime.py (fresh interpreter), everything else by calling public functions
+# on crafted inputs and identifying the one candidate that reproduces what they return. A behaviour-preserving refactoring
+# therefore yields the same file; a change of a value yields a different file and breaks `source_constants_tied`.
+
+_PROBE_KEYS = [bytes(range(32)), bytes((7 * index + 3) % 256 for index in range(32)), bytes([0xA5] * 32)]
+_PROBE_IDENTIFIER = 0x5A
 
 
-def _function_text(tree, class_name, function_name):
-	for node in tree.body:
-		if isinstance(node, ast.ClassDef) and node.name == class_name:
-			for item in node.body:
-				if isinstance(item, ast.FunctionDef) and item.name == function_name:
-					body = [statement for statement in item.body if not (isinstance(statement, ast.Expr) and isinstance(statement.value, ast.Constant))]
-					return '\n'.join(ast.unparse(statement) for statement in body)
-	raise ValueError(f'{class_name}.{function_name} not found')
+def _hash_candidates():
+	"""name (as the specification spells the expected one) -> function; more than the two expected ones, so that a swap is named."""
+	return {
+		'hashlib.sha3_256': lambda data: hashlib.sha3_256(data).digest(),
+		'sha3.keccak_256': lambda data: spec_keccak(data, 136, 32),
+		'hashlib.sha256': lambda data: hashlib.sha256(data).digest(),
+		'hashlib.sha3_512': lambda data: hashlib.sha3_512(data).digest(),
+		'sha3.keccak_512': lambda data: spec_keccak(data, 72, 64),
+		'hashlib.sha512': lambda data: hashlib.sha512(data).digest(),
+	}
 
 
-def _function_node(tree, class_name, function_name):
-	for node in tree.body:
-		if isinstance(node, ast.ClassDef) and node.name == class_name:
-			for item in node.body:
-				if isinstance(item, ast.FunctionDef) and item.name == function_name:
-					return item
-	raise ValueError(f'{class_name}.{function_name} not found')
+def _digest_candidates():
+	return {
+		'ripemd160': lambda data: hashlib.new('ripemd160', data).digest(),
+		'sha1': lambda data: hashlib.sha1(data).digest(),
+	}
 
 
-def _extract(problems, text, pattern, what, convert=int):
-	match = re.search(pattern, text)
-	if not match:
-		problems.append(f'translator: {what} has an unexpected shape: {text[:160]!r}')
-		return convert() if convert in (int, str) else None
-	return convert(match.group(1))
+def _probe_derivation(kind, network_module, problems):
+	"""public_key_to_address on fixed keys: where the identifier byte is, which hash and 20-byte digest produce the middle part,
+	at which offset the checksum starts, which hash of the bytes before it the checksum is the start of, and how many checksum
+	bytes the public_key_to_address -> create_address hand-over carries (seen by a subclass that overrides create_address)."""
+	from symbolchain.CryptoTypes import PublicKey
+	result = {'hasher': '', 'ripemd_length': 0, 'hashed_prefix': 0, 'keep': 0, 'handed_over': 0}
+	handed_over = []
+
+	class Recording(network_module.Network):
+		def create_address(self, address_without_checksum, checksum):
+			handed_over.append((len(address_without_checksum), len(checksum)))
+			return super().create_address(address_without_checksum, checksum)
+
+	network = Recording('probe', _PROBE_IDENTIFIER, EPOCH)
+	addresses = [bytes(network.public_key_to_address(PublicKey(key)).bytes) for key in _PROBE_KEYS]
+	hashes = _hash_candidates()
+	middles = set()
+	for hash_name, hash_function in hashes.items():
+		for digest_name, digest_function in _digest_candidates().items():
+			positions = {address.find(digest_function(hash_function(key))) for key, address in zip(_PROBE_KEYS, addresses)}
+			if 1 == len(positions) and -1 not in positions:
+				middles.add((hash_name, digest_name, positions.pop(), len(digest_function(b''))))
+	if 1 != len(middles):
+		problems.append(f'translator: {kind}: {len(middles)} candidates (hash, digest) explain the middle part of a derived address {sorted(middles)[:3]}')
+		return result
+	hash_name, digest_name, start, digest_length = middles.pop()
+	if 'ripemd160' != digest_name:
+		problems.append(f'translator: {kind}: the key hash is digested with {digest_name}, not RIPEMD-160')
+	if 1 != start or any(address[0] != _PROBE_IDENTIFIER for address in addresses):
+		problems.append(f'translator: {kind}: the key digest starts at byte {start} and the identifier byte is {[address[0] for address in addresses]}')
+	sizes = {len(address) for address in addresses}
+	if 1 != len(sizes):
+		problems.append(f'translator: {kind}: derived addresses have sizes {sorted(sizes)}')
+		return result
+	size = sizes.pop()
+	checksums = set()
+	for offset in range(1, size):
+		for name, function in hashes.items():
+			if all(address[offset:] == function(address[:offset])[:size - offset] for address in addresses):
+				checksums.add((offset, name))
+	if 1 != len(checksums):
+		problems.append(f'translator: {kind}: {len(checksums)} candidates (offset, hash) explain the checksum of a derived address {sorted(checksums)[:3]}')
+		return result
+	offset, checksum_hash = checksums.pop()
+	if checksum_hash != hash_name:
+		problems.append(f'translator: {kind}: key hash is {hash_name} but checksum hash is {checksum_hash}')
+	lengths = {entry[1] for entry in handed_over}
+	result.update({'hasher': hash_name, 'ripemd_length': digest_length, 'hashed_prefix': offset, 'keep': size - offset})
+	# when public_key_to_address no longer goes through create_address the hand-over is not observable; what is kept is
+	result['handed_over'] = lengths.pop() if 1 == len(lengths) else size - offset
+	return result
+
+
+def _probe_validation(kind, network_module, hasher_name, problems):
+	"""is_valid_address on crafted addresses: the one offset p such that bytes[p:] = start of hash(bytes[:p]) is accepted."""
+	network = network_module.Network('probe', _PROBE_IDENTIFIER, EPOCH)
+	size = network_module.Address.SIZE
+	accepted = set()
+	for name, function in _hash_candidates().items():
+		for offset in range(1, size):
+			verdicts = []
+			for key in _PROBE_KEYS[:2]:
+				prefix = (bytes([_PROBE_IDENTIFIER]) + key + key)[:offset]
+				crafted = prefix + function(prefix)[:size - offset]
+				verdicts.append(len(crafted) == size and network.is_valid_address(network_module.Address(crafted)))
+			if all(verdicts):
+				accepted.add((offset, name))
+	if 1 != len(accepted):
+		problems.append(f'translator: {kind}: {len(accepted)} candidates (offset, hash) describe what is_valid_address accepts {sorted(accepted)[:3]}')
+		return 0
+	offset, name = accepted.pop()
+	if name != hasher_name:
+		problems.append(f'translator: {kind}: addresses are derived with {hasher_name} but validated with {name}')
+	return offset
+
+
+def _probe_text(kind, address_class, problems):
+	"""str(Address(bytes)) and Address(str) against base64: the least (zero bytes appended, characters cut) and the first
+	(characters appended, bytes cut) in a fixed order that reproduce them. (Spellings that behave alike give the same answer.)"""
+	import base64
+	samples = [bytes((37 * index + 11) % 256 for index in range(address_class.SIZE)), bytes([0xFF] * address_class.SIZE), bytes(address_class.SIZE)]
+	texts = [str(address_class(sample)) for sample in samples]
+
+	def cut(value, count):
+		return value[0:len(value) - count]
+
+	printing = [
+		(pad, drop) for pad in range(0, 3) for drop in range(0, 3)
+		if all(cut(base64.b32encode(sample + bytes(pad)).decode('utf8'), drop) == text for sample, text in zip(samples, texts))]
+
+	def parses(pad, drop):
+		try:
+			return all(cut(base64.b32decode(text + pad), drop) == bytes(address_class(text).bytes) == sample for sample, text in zip(samples, texts))
+		except Exception:  # pylint: disable=broad-except
+			return False
+
+	parsing = [(pad, drop) for pad in [''] + list(ALPHABET) + ['AA', '='] for drop in range(0, 3) if parses(pad, drop)]
+	if not printing or not parsing:
+		problems.append(f'translator: {kind}: Address text form is not base32 with appended / cut filler (print {printing[:2]}, parse {parsing[:2]})')
+		return (0, 0), ('', 0)
+	return printing[0], parsing[0]
 
 
 def translate(_ctx):
-	"""Generated/C08Consts.lean: constants of the anchored files, re-read from the working tree on every run."""
+	"""Generated/C08Consts.lean: constants of the anchored code, obtained from the running code of the working tree on every run."""
 	# pylint: disable=too-many-locals
-	from translate import pyconst
+	import importlib
 
-	from .common import LEAN, REPO, write_if_changed
-	base = os.path.join(REPO, 'sdk/python/symbolchain')
+	from translate import pyconst, pyruntime
+
+	from .common import LEAN, REPO, setup_paths, write_if_changed
 	problems = []
-	basic_path = os.path.join(base, 'Network.py')
-	symbol_path = os.path.join(base, 'symbol/Network.py')
-	nem_path = os.path.join(base, 'nem/Network.py')
-	alphabet = pyconst.module_constants(basic_path).get('BASE32_RFC4648_ALPHABET', '')
-	basic = pyconst.parse(basic_path)
-	derive_text = _function_text(basic, 'Network', 'public_key_to_address')
-	checksum_length = _extract(problems, derive_text, r'\.digest\(\)\[0?:(\d+)\]', 'Network.public_key_to_address checksum slice')
-	bounds = set()
-	for node in ast.walk(_function_node(basic, 'Network', 'is_valid_address')):
-		if isinstance(node, ast.Slice):
-			for bound in (node.lower, node.upper):
-				try:
-					value = pyconst.const_eval(bound) if bound is not None else 0
-				except ValueError:
-					continue  # a computed bound such as len(...)
-				if value:
-					bounds.add(value)
-	if 1 != len(bounds):
-		problems.append(f'translator: Network.is_valid_address slices at {sorted(bounds)} instead of one checksum offset')
-		bounds = {0}
-	hashed_prefix = bounds.pop()
-	ripemd_length = max(0, hashed_prefix - 1)
+	alphabet = ''
+	public = {kind: {'size': 0, 'encoded': 0, 'identifiers': []} for kind in KINDS}
+	derived = {kind: {'hasher': '', 'ripemd_length': 0, 'hashed_prefix': 0, 'keep': 0, 'handed_over': 0} for kind in KINDS}
+	validated = {kind: 0 for kind in KINDS}
+	printing, parsing = (0, 0), ('', 0)
+	try:
+		setup_paths()
+		alphabet = pyruntime.values(REPO, 'symbolchain.Network', ['BASE32_RFC4648_ALPHABET'])['BASE32_RFC4648_ALPHABET']
+		for kind in KINDS:
+			names = pyruntime.values(REPO, f'symbolchain.{kind}.Network', [
+				'Address.SIZE', 'Address.ENCODED_SIZE', 'Network.MAINNET.identifier', 'Network.TESTNET.identifier'])
+			public[kind] = {
+				'size': names['Address.SIZE'], 'encoded': names['Address.ENCODED_SIZE'],
+				'identifiers': [names['Network.MAINNET.identifier'], names['Network.TESTNET.identifier']]}
+			network_module = importlib.import_module(f'symbolchain.{kind}.Network')
+			derived[kind] = _probe_derivation(kind, network_module, problems)
+			validated[kind] = _probe_validation(kind, network_module, derived[kind]['hasher'], problems)
+			text_form = _probe_text(kind, network_module.Address, problems)
+			if 'symbol' == kind:
+				printing, parsing = text_form
+			elif ((0, 0), ('', 0)) != text_form:
+				problems.append(f'translator: nem Address text form is no longer plain base32: print {text_form[0]}, parse {text_form[1]}')
+	except Exception as ex:  # pylint: disable=broad-except
+		problems.append(f'translator: probing the implementation failed: {type(ex).__name__}: {str(ex)[:300]}')
 
-	symbol = pyconst.parse(symbol_path)
-	symbol_address = pyconst.class_constants(symbol_path, 'Address')
-	symbol_keep = _extract(problems, _function_text(symbol, 'Network', 'create_address'), r'\w+\[0?:(\d+)\]', 'symbol Network.create_address')
-	symbol_init = _function_text(symbol, 'Address', '__init__')
-	parse_pad = _extract(problems, symbol_init, r"b32decode\(\w+ \+ '([^']*)'\)\[0?:-\d+\]", 'symbol Address.__init__ decode', str)
-	parse_drop = _extract(problems, symbol_init, r"b32decode\(\w+ \+ '[^']*'\)\[0?:-(\d+)\]", 'symbol Address.__init__ decode')
-	symbol_str = _function_text(symbol, 'Address', '__str__')
-	print_pad = _extract(problems, symbol_str, r'b32encode\(self\.bytes \+ bytes\((\d+)\)\)', 'symbol Address.__str__ encode')
-	print_drop = _extract(problems, symbol_str, r"\.decode\('utf8'\)\[0?:-(\d+)\]", 'symbol Address.__str__ encode')
-	symbol_hasher = _extract(problems, _function_text(symbol, 'Network', 'address_hasher'), r'^return ([\w.]+)\(\)$', 'symbol address_hasher', str)
-	symbol_ids = [pyconst.attribute_call_args(symbol_path, 'Network', name)[1] for name in ('MAINNET', 'TESTNET')]
+	def common_value(name, values):
+		if 1 != len(set(values)):
+			problems.append(f'translator: {name} differs between the derivation / validation of the two address kinds: {values}')
+		return values[0]
 
-	nem = pyconst.parse(nem_path)
-	nem_address = pyconst.class_constants(nem_path, 'Address')
-	nem_create = _function_text(nem, 'Network', 'create_address')
-	nem_keep = checksum_length if '[' not in nem_create else _extract(problems, nem_create, r'\w+\[0?:(\d+)\]', 'nem Network.create_address')
-	nem_hasher = _extract(problems, _function_text(nem, 'Network', 'address_hasher'), r'^return ([\w.]+)\(\)$', 'nem address_hasher', str)
-	nem_ids = [pyconst.attribute_call_args(nem_path, 'Network', name)[1] for name in ('MAINNET', 'TESTNET')]
-
+	hashed_prefix = common_value('checksum offset', [derived[kind]['hashed_prefix'] for kind in KINDS] + [validated[kind] for kind in KINDS])
+	ripemd_length = common_value('key digest length', [derived[kind]['ripemd_length'] for kind in KINDS])
+	checksum_length = common_value('checksum hand-over length', [derived[kind]['handed_over'] for kind in KINDS])
 	text = (
-		'/- generated by harness/c08.py from sdk/python/symbolchain/{Network,symbol/Network,nem/Network}.py; do not edit -/\n'
+		'/- generated by harness/c08.py from the behaviour of symbolchain.Network, symbol.Network, nem.Network in the working tree; do not edit -/\n'
 		'namespace SymbolVerif.Generated.C08\n'
-		f'def alphabet : String := {pyconst.lean_string(alphabet)}\n'
+		f'def alphabet : String := {pyconst.lean_string(str(alphabet))}\n'
 		f'def checksumLength : Nat := {checksum_length}\n'
 		f'def hashedPrefixLength : Nat := {hashed_prefix}\n'
 		f'def ripemdLength : Nat := {ripemd_length}\n'
-		f'def symbolAddressSize : Nat := {symbol_address.get("SIZE", 0)}\n'
-		f'def symbolAddressEncodedSize : Nat := {symbol_address.get("ENCODED_SIZE", 0)}\n'
-		f'def symbolChecksumKeep : Nat := {symbol_keep}\n'
-		f'def symbolParsePad : String := {pyconst.lean_string(parse_pad)}\n'
-		f'def symbolParseDrop : Nat := {parse_drop}\n'
-		f'def symbolPrintPadBytes : Nat := {print_pad}\n'
-		f'def symbolPrintDrop : Nat := {print_drop}\n'
-		f'def symbolHasher : String := {pyconst.lean_string(symbol_hasher)}\n'
-		f'def symbolNetworkIdentifiers : List Nat := {pyconst.lean_nat_list(symbol_ids)}\n'
-		f'def nemAddressSize : Nat := {nem_address.get("SIZE", 0)}\n'
-		f'def nemAddressEncodedSize : Nat := {nem_address.get("ENCODED_SIZE", 0)}\n'
-		f'def nemChecksumKeep : Nat := {nem_keep}\n'
-		f'def nemHasher : String := {pyconst.lean_string(nem_hasher)}\n'
-		f'def nemNetworkIdentifiers : List Nat := {pyconst.lean_nat_list(nem_ids)}\n'
+		f'def symbolAddressSize : Nat := {public["symbol"]["size"]}\n'
+		f'def symbolAddressEncodedSize : Nat := {public["symbol"]["encoded"]}\n'
+		f'def symbolChecksumKeep : Nat := {derived["symbol"]["keep"]}\n'
+		f'def symbolParsePad : String := {pyconst.lean_string(parsing[0])}\n'
+		f'def symbolParseDrop : Nat := {parsing[1]}\n'
+		f'def symbolPrintPadBytes : Nat := {printing[0]}\n'
+		f'def symbolPrintDrop : Nat := {printing[1]}\n'
+		f'def symbolHasher : String := {pyconst.lean_string(derived["symbol"]["hasher"])}\n'
+		f'def symbolNetworkIdentifiers : List Nat := {pyconst.lean_nat_list(public["symbol"]["identifiers"])}\n'
+		f'def nemAddressSize : Nat := {public["nem"]["size"]}\n'
+		f'def nemAddressEncodedSize : Nat := {public["nem"]["encoded"]}\n'
+		f'def nemChecksumKeep : Nat := {derived["nem"]["keep"]}\n'
+		f'def nemHasher : String := {pyconst.lean_string(derived["nem"]["hasher"])}\n'
+		f'def nemNetworkIdentifiers : List Nat := {pyconst.lean_nat_list(public["nem"]["identifiers"])}\n'
 		'end SymbolVerif.Generated.C08\n')
 	write_if_changed(os.path.join(LEAN, 'SymbolVerif', 'Generated', 'C08Consts.lean'), text)
 	return problems
@@ -328,10 +421,10 @@ def evaluate(modules, case):
 			f'is_valid_address_string({text!r}) on {kind} identifier {identifier:#x} is {verdict}, expected {expected} ({"+".join(reasons) or "well formed"})')
 		out.request(f'is_valid_string {kind} {identifier} {sx(text)}', 'ok ' + bool_text(verdict[1]) if 'ok' == verdict[0] else 'none')
 		parsed = attempt(lambda: address_class(text))
-		if data is None:
-			out.require('none' == parsed[0], f'Address({text!r}) was accepted: {hx(parsed[1].bytes) if "ok" == parsed[0] else ""}')
-		else:
+		if data is not None:
 			out.require('ok' == parsed[0] and parsed[1].bytes == data, f'Address({text!r}) != the first {sizes["size"]} bytes of its 5-bit digits')
+		# what Address(...) does with a string that is not `encoded` alphabet characters is not part of the property (only of the
+		# model: address_of_string_isSome_iff); the request below compares it with the model
 		out.request(f'of_string {kind} {sx(text)}', f'ok {hx(parsed[1].bytes)}' if 'ok' == parsed[0] else 'none')
 		if 'ok' == parsed[0]:
 			# text -> bytes -> text (symbol_parse_print): the model says which spelling comes back
@@ -409,6 +502,12 @@ def string_edits(rng, kind, identifier, address_bytes, text):
 	edits.append(('lower-case-all', identifier, text.lower()))
 	edits.append(('shorter', identifier, text[:-1] if rng.random() < 0.5 else text[1:]))
 	edits.append(('longer', identifier, text + rng.choice(ALPHABET) if rng.random() < 0.5 else rng.choice(ALPHABET) + text))
+	# white space and line ends around an otherwise valid string (what a line read from a file carries; `$` and strip() treat them specially)
+	for name, extra in (('lf', '\n'), ('crlf', '\r\n'), ('space', ' '), ('tab', '\t'), ('vt', '\x0b'), ('ff', '\x0c'), ('nul', '\x00'), ('ls', '\u2028'), ('nel', '\x85')):
+		edits.append((f'trailing-{name}', identifier, text + extra))
+		if name in ('lf', 'space', 'tab'):
+			edits.append((f'leading-{name}', identifier, extra + text))
+			edits.append((f'last-replaced-by-{name}', identifier, text[:-1] + extra))
 	edits.append(('padding', identifier, text[:-1] + '='))
 	edits.append(('padded-longer', identifier, text + '='))
 	edits.append(('wrong-identifier', rng.choice(other_identifiers(identifier)), text))
@@ -461,7 +560,7 @@ def generate(ctx, vectors):
 			address_bytes = spec_address(kind, identifier, public_key)
 			text = spec_text(address_bytes)[:KINDS[kind]['encoded']]
 			edits = string_edits(rng, kind, identifier, address_bytes, text)
-			for edit, against, edited in (edits if rng.random() < 0.25 else rng.sample(edits, 4)):
+			for edit, against, edited in (edits if rng.random() < 0.25 else rng.sample(edits, 6)):
 				cases.append({'op': 'string', 'net': kind, 'id': against, 's': edited, 'edit': edit, 'shipped': shipped})
 			pick = rng.random()
 			if pick < 0.5:
